@@ -238,7 +238,71 @@ def check_truncate_block(case):
     return Info(n_eval=n, n_nontrivial=nt, label_counts={f"T={case['threshold']}": n})
 
 
+def check_handlers(case):
+    """The same guarantees seen through the read loops that own a buffer (TCP client, TCP server, TTY server): after a
+    truncated element and a valid message, junk without any '>' keeps arriving in chunks; once more than the threshold has
+    arrived the valid message must have been delivered and no more than the threshold may be retained.
+    case: {"which": "client"|"server"|"tty", "chunk": int, "junk": "x"|"mixed", "factor": int}"""
+    from harness import net
+    from harness.props.c02 import _RecRouter
+
+    which = case["which"]
+    loop = net.new_loop()
+    try:
+        delivered = []
+
+        def sink(m):
+            delivered.append(gen.view(m))
+
+        if which == "client":
+            from indi.transport.client.tcp import ConnectionHandler
+
+            reader = net.FakeReader(loop)
+            h = ConnectionHandler(reader, net.FakeWriter(loop), sink, for_blobs=False)
+        elif which == "server":
+            from indi.transport.server.tcp import ConnectionHandler
+
+            reader = net.FakeReader(loop)
+            h = ConnectionHandler(reader, net.FakeWriter(loop), _RecRouter(sink))
+        else:
+            from indi.transport.server.tty import ConnectionHandler
+
+            reader = net.FakeStdin(loop)
+            h = ConnectionHandler(_RecRouter(sink), reader, net.FakeStdout(loop))
+        thr = h.buffer.max_buffer_size_before_frontal_cleanup
+        task = loop.create_task(h.wait_for_messages())
+        loop.drain()
+
+        def feed(text):
+            if which == "tty":
+                reader.feed(text + "\n")
+            else:
+                reader.feed(text.encode("latin1"))
+            loop.drain()
+            if task.done():
+                raise Failure(f"handlers:{which}:read-loop-ended", f"{task.exception()!r}")
+
+        feed('<getProperties version="1.7"/>')
+        feed('<setTextVector device="a" name="t" state="Ok"')  # truncated: its '>' never comes
+        feed('<message device="x" message="after the truncated element"/>')
+        unit = {"x": "x", "mixed": "junk <<< &&& \" ' = "}[case["junk"]]
+        total = 0
+        while total <= case["factor"] * thr:
+            piece = (unit * (case["chunk"] // len(unit) + 1))[: case["chunk"]]
+            feed(piece)
+            total += len(piece)
+            if h.buffer.data_len > thr + case["chunk"]:
+                raise Failure(f"handlers:{which}:retention-exceeds-threshold", f"after {total} characters of '>'-free junk in chunks of {case['chunk']}: buffer holds {h.buffer.data_len}, threshold {thr}")
+        tags = [v[0] for v in delivered]
+        if tags.count("message") != 1 or tags[0] != "getProperties":
+            raise Failure(f"handlers:{which}:valid-message-not-recovered", f"after {total} characters of junk behind it (threshold {thr}): delivered {tags}")
+        return Info(nontrivial=True, labels=[which, f"chunk={case['chunk']}", case["junk"]])
+    finally:
+        loop.shutdown()
+
+
 SUBCHECKS = {
+    "handlers": check_handlers,
     "safety": check_safety, "transparent": check_transparent, "recovery": check_recovery,
     "truncate-all": check_truncate_block, "fuzz": check_raw, "raw": check_raw,
 }
@@ -302,6 +366,8 @@ def run(ctx):
     ctx.hyp("safety", safety_case(), check_safety, ctx.scale(500, 15000), timeout=60)
     ctx.hyp("transparent", transparent_case(), check_transparent, ctx.scale(500, 15000), timeout=60)
     ctx.hyp("recovery", recovery_case(), check_recovery, ctx.scale(300, 8000), timeout=60)
+    hcases = [{"which": w, "chunk": c, "junk": j, "factor": 3} for w in ("client", "server", "tty") for c in (100, 1024, 700) for j in ("x", "mixed")]
+    ctx.each("handlers", hcases, check_handlers, stop_after=2, timeout=120)
     n = ctx.each("truncate-all", truncate_blocks(), check_truncate_block, stop_after=1, timeout=240)
     ctx.exhaustive["truncate-all"] = {"complete": True, "n_blocks": n, "bound": "every truncation position of the distinct corpus messages x T in {16,128,2048} x {char-by-char, one piece, 4 fixed cuts}"}
     if ctx.tier == "thorough":
